@@ -21,7 +21,7 @@ PROPS = {
         "rule": "exhaustive ordered pairs of all canonical range sets over a 6-cell (quick) / 7-cell (thorough) universe for the plain "
                 "primitives; per (quantity, width) every MOC of the whole-domain universe at a shallow depth (Hpx depth 0: 12 cells, "
                 "Time/Frequency depth 2: 8 cells) as unary operand and sampled/all ordered pairs; boundary-biased random MOCs at all "
-                "depths 0..MAX_DEPTH; 6 source kinds for lazy operators. distinct_nontrivial = distinct op lines whose operands are "
+                "depths 0..MAX_DEPTH; 8 source kinds for lazy operators (incl. borrowed ASCII- and JSON-parsed MOCs). distinct_nontrivial = distinct op lines whose operands are "
                 "not both empty (resp. empty/full).",
         "explanation": "theorems: set semantics + canonicity of union/intersection/merge(op)/difference/complement/normalize and of the "
                        "lazy and/or/xor/minus/not/degrade models; correspondence: model = code on the generated inputs",
@@ -52,7 +52,7 @@ PROPS = {
     "C04": {
         "trusted_base": COMMON_TB,
         "assumptions": COMMON_ASSUME + [
-            "a streaming source is modelled by the sequence it yields plus the hints it advertises at creation and after 1 and 2 next(); the hints of the 6 real leaf source kinds are OBSERVED by the harness and handed to the model (theorems quantify over all consistent hints)",
+            "a streaming source is modelled by the sequence it yields plus the hints it advertises at creation and after 1 and 2 next(); the hints of the 8 real leaf source kinds are OBSERVED (and themselves judged by hintOkB) by the harness and handed to the model (theorems quantify over all consistent hints)",
             "size hints of nested operator nodes are judged by the proved-equivalent predicate hintOkB on the implementation's own (hint, yield) pairs rather than predicted exactly"],
         "rule": "random operator trees (height 1..4 quick / 1..6 thorough) over and/or/xor/minus/not/degrade, leaves from the whole-domain small scope or "
                 "boundary-biased random MOCs (incl. operands placed just after/before another one and degrade feeding a binary operator), 9 (quantity,width) "
